@@ -19,6 +19,7 @@ from harness.common import REPO, VERIF, pool_map, rng_for, run_cli, scratch_dir
 from harness.framework import Check
 
 PROP = "C15"
+ISO_SHARE = {"quick": 0.5, "thorough": 0.35}   # share of the random groups whose reference is also taken rule by rule in isolation (grid / corpus: all)
 FLAGS = ["q_shebang_any_ext", "q_name_exemption_ext_case"]
 HEADER = "From TL Require Import Lib.Base Model.DispatchTypes Gen.DispatchGen Model.Dispatch Model.DispatchRun Actual.DispatchActual.\n"
 LANG_EXT = {"python": ".py", "typescript": ".ts", "javascript": ".js", "rust": ".rs"}
@@ -99,6 +100,10 @@ RS_BLOCKS = {
     "async": "async fn load{n}() -> String {{\n    let c = std::fs::read_to_string(\"a.txt\").unwrap();\n    std::thread::sleep(std::time::Duration::from_secs({k1}));\n    c\n}}\n",
 }
 BLOCKS = {"py": PY_BLOCKS, "ts": TS_BLOCKS, "rs": RS_BLOCKS}
+# a tail that makes the whole file unparsable (Python: ast.parse raises SyntaxError, every Python rule takes its syntax-error path;
+# TypeScript / Rust: tree-sitter error nodes)
+BROKEN = {"py": "\n\ndef broken_tail(:\n    return 1 +\n", "ts": "\nfunction brokenTail( {{{ = ;\n", "rs": "\nfn broken_tail( {{ -> ;\n"}
+LINK_EXTS = [".py", ".txt", ".ts", ".rs", "", ".PY", ".js", ".md"]
 PRELUDE = {"py": "import os\nimport re\n\n\n", "ts": "", "rs": "use std::fs;\n\n"}
 HEADS = ["", "", "", "#!/usr/bin/env python3\n", "#!/usr/bin/python\n", "#!/usr/bin/env python\n", "#!/bin/bash\n", "#! python -u\n",
          "# !/usr/bin/python\n", "#!/usr/bin/env node\n", " #!/usr/bin/python\n", "#!/usr/bin/env PYTHON\n", "#!/opt/py/bin/run\n",
@@ -106,7 +111,7 @@ HEADS = ["", "", "", "#!/usr/bin/env python3\n", "#!/usr/bin/python\n", "#!/usr/
          "#!/opt/mypythonista/bin/run\n", "#!/usr/bin/env -S cargo +nightly -Zscript\n", "#!/usr/bin/env rust-script\n"]
 STEMS = ["mod", "widget", "svc_core", "data.v2", "X", "thing.min", "py", "a.py", "test_mod", "{t}_mod_test", "{t}.test", "{t}.spec", "{t}_test"]
 EXT_MAPPED = [".py", ".js", ".ts", ".tsx", ".jsx", ".java", ".go", ".rs"]
-EXT_UNMAPPED = ["", "", ".txt", ".md", ".sh", ".pyw", ".pyi", ".json", ".c", ".", ".py.bak", ".PY.txt", ".tss", ".p", ".rst", ".yaml.j2", ".rs~"]
+EXT_UNMAPPED = ["", "", "", "", "", ".txt", ".md", ".sh", ".pyw", ".pyi", ".json", ".c", ".", ".py.bak", ".PY.txt", ".tss", ".p", ".rst", ".yaml.j2", ".rs~"]
 
 
 def case_variant(r, ext: str) -> str:
@@ -252,8 +257,24 @@ def gen_groups(seed: int, n: int):
         elif special < 0.06:
             data = (head.encode() or b"x = 1\n") + b"\xff\xfe broken \x80\n" + data
         base, pert, touched = make_configs(r)
-        groups.append({"i": i, "kind": kind, "stem": r.choice(STEMS), "ext": ext, "data_hex": data.hex(),
-                       "base": base, "pert": pert, "touched": touched, "subprocess_cmds": []})
+        g = {"i": i, "kind": kind, "stem": r.choice(STEMS), "ext": ext, "data_hex": data.hex(),
+             "base": base, "pert": pert, "touched": touched, "subprocess_cmds": []}
+        extra = r.random()
+        if extra < 0.12 and special >= 0.06:
+            g["data_hex"] = (text + BROKEN[kind]).encode("utf-8").hex()      # does not parse
+        elif extra < 0.24:
+            cands = [e for e in LINK_EXTS if e.lower() != ext.lower()]
+            g["link_ext"] = r.choice(cands)     # the linted names are symbolic links to files with ANOTHER extension
+        elif ext == "" and special >= 0.06 and "{t}" not in g["stem"] and extra < 0.8:
+            # another extension-less file of the OPPOSITE kind (python shebang / none or another interpreter) in the same invocation,
+            # before or after this one, given as paths or found in the directory: every file is classified on its own
+            mine_py = spec_class(g["stem"] + "_a", data) == "python"
+            comp_head = r.choice(["# no shebang\n", "#!/bin/bash\n", "#!/usr/bin/env node\n", ""]) if mine_py else r.choice(HEADS[3:6])
+            comp = [r.choice(["aa_first", "zz_last", "Mid"]), (comp_head + make_content(r, r.choice(["py", "py", "ts"]))).encode().hex()]
+            me = [g["stem"], g["data_hex"]]
+            g["project"] = [comp, me] if r.random() < 0.5 else [me, comp]
+            g["paths_mode"] = r.choice(["files", "files", "dir"])
+        groups.append(g)
     return groups
 
 
@@ -315,6 +336,24 @@ def grid_groups(cmds_all):
             out.append({"i": f"grid:{len(out)}", "kind": "py", "stem": me, "ext": "", "data_hex": parts[me].encode().hex(), "base": {}, "pert": {}, "touched": [],
                         "fixed_cmds": ["nesting", "lbyl", "magic-numbers", "improper-logging", "srp"], "subprocess_cmds": [],
                         "project": [[x, parts[x].encode().hex()] for x in combo], "paths_mode": mode})
+    # a Python file that does not parse: EVERY command (each Python rule reports - or does not report - the syntax error under its
+    # own id, whichever rules ran before it on the same file), under the names that select / do not select Python
+    broken_py = _fixed_content("py") + BROKEN["py"]
+    for stem, ext, head, cmds in (("broken", ".py", "", list(cmds_all)), ("broken", ".PY", "", list(cmds_all)[::2]), ("broken", "", "#!/usr/bin/env python3\n", list(cmds_all)[1::2]),
+                                  ("broken", ".txt", "#!/usr/bin/env python3\n", ["nesting", "srp", "perf", "lbyl"]), ("broken", ".ts", "", ["nesting", "srp", "perf", "magic-numbers"])):
+        out.append({"i": f"grid:{len(out)}", "kind": "py", "stem": stem, "ext": ext, "data_hex": (head + broken_py).encode().hex(), "base": {}, "pert": {},
+                    "touched": [], "fixed_cmds": cmds, "subprocess_cmds": []})
+    for kind, ext in (("ts", ".ts"), ("ts", ".js"), ("rs", ".rs")):
+        out.append({"i": f"grid:{len(out)}", "kind": kind, "stem": "broken", "ext": ext, "data_hex": (_fixed_content(kind) + BROKEN[kind]).encode().hex(), "base": {}, "pert": {},
+                    "touched": [], "fixed_cmds": ["nesting", "srp", "magic-numbers", "improper-logging", "unwrap-abuse", "perf"], "subprocess_cmds": []})
+    # symbolic links: the language is that of the NAME THAT IS LINTED (its extension / its first line), never of the link target's name
+    for kind, ext, link_ext, head in (("py", ".txt", ".py", ""), ("py", ".py", ".txt", ""), ("py", "", ".py", ""), ("py", "", ".py", "#!/usr/bin/env python3\n"),
+                                      ("py", "", ".txt", "#!/usr/bin/python\n"), ("py", ".ts", ".py", ""), ("ts", ".ts", ".py", ""), ("ts", ".md", ".ts", ""),
+                                      ("rs", ".RS", ".ts", ""), ("rs", ".rs", "", ""), ("rs", ".txt", ".rs", ""), ("ts", ".js", ".TS", ""), ("py", ".PY", ".rs", "")):
+        add(kind, "lnk", ext, head + _fixed_content(kind), n_cmds=4)
+        out[-1]["link_ext"] = link_ext
+        if kind == "py":
+            out[-1]["fixed_cmds"] = sorted(set(out[-1]["fixed_cmds"]) | {"nesting", "magic-numbers"})
     # name-based test-file exemptions under case variants of the extension (and their lower-case counterparts)
     for stem, ext, kind, cmds in (("test_mod", ".PY", "py", ["method-property", "magic-numbers", "nesting"]), ("test_mod", ".py", "py", ["method-property", "magic-numbers"]),
                                   ("{t}_mod_test", ".Py", "py", ["magic-numbers", "method-property", "stringly-typed"]), ("{t}_mod_test", ".py", "py", ["magic-numbers", "stringly-typed"]),
@@ -388,11 +427,18 @@ def _norm(v, names):
     return [str(v["rule_id"]), twin, v["line"], v["column"], msg]
 
 
-def _write_project(root: Path, names, data: bytes, config: dict):
+def _write_project(root: Path, names, data: bytes, config: dict, link_ext=None):
+    """two twin files under src/; with link_ext the two names are symbolic links to store/real_a<link_ext>, store/real_b<link_ext>"""
     import yaml
     (root / "src").mkdir(parents=True, exist_ok=True)
-    for nm in names:
-        (root / "src" / nm).write_bytes(data)
+    if link_ext is not None:
+        (root / "store").mkdir(exist_ok=True)
+    for nm, target in zip(names, _twins("real", link_ext or "")):
+        if link_ext is None:
+            (root / "src" / nm).write_bytes(data)
+        else:
+            (root / "store" / target).write_bytes(data)
+            os.symlink(os.path.join("..", "store", target), root / "src" / nm)
     (root / ".thailint.yaml").write_text(yaml.safe_dump(config, sort_keys=True) if config else "{}\n")
 
 
@@ -417,6 +463,25 @@ def _reference(root: Path):
     o = Orchestrator(project_root=root)
     vs = o.lint_directory(root / "src")
     return [{"rule_id": v.rule_id, "file_path": str(v.file_path), "line": v.line, "column": v.column, "message": v.message} for v in vs]
+
+
+def _isolated(d: Path, tag: str, names, data: bytes, config: dict, link_ext=None):
+    """every registered rule ALONE: one fresh orchestrator per rule whose registry holds only a fresh instance of that rule, each on
+    its own copy of the project (own directory), so that nothing another rule did - on this file or on any other - can reach it"""
+    from src.orchestrator.core import Orchestrator
+    seed = Orchestrator(project_root=d)
+    seed._ensure_rules_discovered()
+    out = {}
+    for k, rule in enumerate(seed.registry.list_all()):
+        root = d / f"iso_{tag}" / str(k)
+        _write_project(root, names, data, config, link_ext)
+        o = Orchestrator(project_root=root)
+        o._rules_discovered = True
+        o.registry.register(type(rule)())
+        vs = o.lint_directory(root / "src")
+        out[rule.rule_id] = sorted(_norm({"rule_id": v.rule_id, "file_path": str(v.file_path), "line": v.line, "column": v.column, "message": v.message}, names)
+                                   for v in vs)
+    return out
 
 
 def _section_rejections(loaded: dict):
@@ -502,10 +567,10 @@ def run_group(g):
         flog = _faillog(d)
         # reference: the same bytes under canonical names, base configuration
         from src.orchestrator.language_detector import detect_language
+        link = g.get("link_ext")
         probe = d / "probe"
-        probe.mkdir()
-        (probe / names[0]).write_bytes(data)
-        out["detected"] = detect_language(probe / names[0])
+        _write_project(probe, names, data, {}, link)
+        out["detected"] = detect_language(probe / "src" / names[0])
         cl = spec_class(names[0], data)
         need = {cl, out["detected"], "python" if cl == "other" else cl} & set(LANG_EXT)
         for lang in sorted(need) + ["python"][: 0 if need else 1]:
@@ -531,12 +596,22 @@ def run_group(g):
             _drain(flog)
         # reference for path-based (language-agnostic) rules: actual names, base configuration
         root = d / "ref_actual"
-        _write_project(root, names, data, g["base"])
+        _write_project(root, names, data, g["base"], link)
         out["agnostic"] = sorted(_norm(v, names) for v in _reference(root))
         out["ref_failures"] += _drain(flog)
+        # every rule alone (own orchestrator, own copy of the project): the reference the property speaks about
+        # ("running or configuring other linters never changes X's findings")
+        if g.get("iso"):
+            if cl in LANG_EXT:
+                out["iso_lang"] = cl
+                out["iso"] = _isolated(d, "lang", _twins(g["stem"], LANG_EXT[cl]), data, g["base"])
+            else:
+                out["iso_lang"] = "*"
+                out["iso"] = _isolated(d, "actual", names, data, g["base"], link)
+            _drain(flog)
         # the run under test: variant names, perturbed configuration
         root = d / "proj"
-        _write_project(root, names, data, g["pert"])
+        _write_project(root, names, data, g["pert"], link)
         paths = ("src",)
         if g.get("project"):
             order = []
@@ -600,13 +675,21 @@ class Tags:
 def build_atab(g, res, agnostic_rules: set[str], tags: Tags):
     rules = res["runtime_rules"]
     tab = {}
+    iso_lang = res.get("iso_lang")
+    if iso_lang is not None:   # exact attribution: the rule that emitted the finding when it ran alone
+        for r, vs in res["iso"].items():
+            if (r in agnostic_rules) == (iso_lang == "*"):
+                for v in vs:
+                    tab.setdefault((r, iso_lang), []).append((v[0], tags.tag(v)))
     for lang, vs in res["refs"].items():
+        if lang == iso_lang:
+            continue
         for v in vs:
             r = owner_rule(v[0], rules)
             if r in agnostic_rules:
                 continue
             tab.setdefault((r, lang), []).append((v[0], tags.tag(v)))
-    for v in res["agnostic"]:
+    for v in res["agnostic"] if iso_lang != "*" else []:
         r = owner_rule(v[0], rules)
         if r in agnostic_rules:
             tab.setdefault((r, "*"), []).append((v[0], tags.tag(v)))
@@ -636,7 +719,8 @@ def coq_group(g, res, atab, tags: Tags, cmds):
         else:
             impl = "Aborted"
         runs.append(f"({coq.coq_string(cmd)}, {impl})")
-    return f"judge dispatch_actual {c} {t} {f} {coq.coq_list(runs)}"
+    target = "None" if g.get("link_ext") is None else f"(Some {coq_bytes(_twins('real', g['link_ext'])[0].encode())})"
+    return f"judge_e dispatch_actual {c} (mk_entry {f} {target} {t}) {coq.coq_list(runs)}"
 
 
 def coq_bytes(b: bytes) -> str:
@@ -765,12 +849,17 @@ def run(tier: str, seed: int, replay: str | None = None) -> int:
                 "own rules in an unfiltered reference run on canonically named copies (.py/.ts/.js/.rs) under the unperturbed configuration. "
                 "Deterministic grids add: every first-line variant (python, node, deno, bash, ruby, python as part of another word) on extension-less names; every mapped "
                 "extension in both cases with own/foreign content; a foreign section added empty / added non-empty / removed while the own section holds a visible "
-                "non-default option; several extension-less files of different kinds in one run (both orders, as paths and as a directory). "
+                "non-default option; several extension-less files of different kinds in one run (both orders, as paths and as a directory); "
+                "a Python file that does not parse under every command (and unparsable TypeScript / Rust), also as a random tail on ~12 % of the random groups; "
+                "names that are symbolic links to a file with another (mapped / unmapped / no) extension (grid of 13 name x target pairs and ~12 % of the random groups). "
+                "For every grid / corpus group and half of the random ones the reference is also taken RULE BY RULE IN ISOLATION (one orchestrator per rule holding only a fresh "
+                "instance of that rule, on its own copy of the project): the union must equal the all-rules reference, and the oracle table is attributed by the emitting rule. "
                 "A case (project, config, command) is non-trivial when the reference runs contain at least one finding of a rule the "
                 "command does not own (something could leak); distinct = distinct (content, file name, configuration, command)")
     chk.trusted_base += [
         "analysis oracle: what a rule reports inside a file of its own language is NOT modelled; it is taken from unfiltered reference runs of the real orchestrator on canonically named copies (the model decides which oracle entries a command may print)",
         "domain: configurations in which every section is valid (a value a linter rejects must end the run with exit code 2 by property C05); the harness confirms validity of every generated section with the real config classes / PatternValidator; a 4-case deterministic out-of-domain stream only records that such runs end with an error",
+        "symbolic links: the model's entry carries the link target's name; that the implementation reads the content through the link and names the file by the linted path is validated by the link stream (os.walk / Path.is_file follow links)",
         "pathlib.PurePath.suffix and str.lower are modelled on bytes for ASCII names (leaf-level check against CPython every run); rule discovery (pkgutil/inspect) validated by comparing the generated rule table with the runtime registry",
     ]
     chk.build(["theories/Props/C15.v"], ["DispatchGen"], known_v=["theories/Props/C15Known.v"])
@@ -820,10 +909,13 @@ def run(tier: str, seed: int, replay: str | None = None) -> int:
             g["cmds"] = sorted(rsub.sample(g["cmds"], per_group))
         if not replay and g["cmds"] and rsub.random() < (0.3 if tier == "quick" else 0.12):
             g["subprocess_cmds"] = [rsub.choice(g["cmds"])]
+        if replay or not isinstance(g["i"], int) or rsub.random() < ISO_SHARE[tier]:
+            g["iso"] = True
     _t("build")
-    results = pool_map(run_group, groups, chunks=1)
+    procs = int(os.environ.get("VERIF_PROCS", "0")) or None      # default: the framework's pool size
+    results = pool_map(run_group, groups, procs=procs, chunks=1)
     _t(f"groups({len(groups)})")
-    leaf_impl = pool_map(run_leaf, leafs)
+    leaf_impl = pool_map(run_leaf, leafs, procs=procs)
     _t(f"leafs({len(leafs)})")
 
     # ---- judge inside Coq
@@ -901,6 +993,17 @@ def run(tier: str, seed: int, replay: str | None = None) -> int:
                                "only_as_ts": [v for v in res["js_as_ts"] if v not in res["refs"].get("javascript", [])][:5],
                                "only_as_js": [v for v in res["refs"].get("javascript", []) if v not in res["js_as_ts"]][:5],
                                "group": {k: v for k, v in g.items() if k not in ("cmds", "subprocess_cmds", "only_cmd", "fixed_cmds", "ood", "raw", "raw_rules", "js_ts_ok")}})
+        if res.get("iso") is not None:
+            chk.dist("isolated-rule reference:" + ("language-agnostic rules, actual names" if res["iso_lang"] == "*" else res["iso_lang"]))
+            together = res["agnostic"] if res["iso_lang"] == "*" else res["refs"].get(res["iso_lang"], [])
+            alone = sorted(v for vs in res["iso"].values() for v in vs)
+            if alone != together:
+                chk.violation({"reason": "the findings of the rules when each runs ALONE (own orchestrator, own copy of the project) differ from their findings when all registered rules run "
+                                         "on the same file: running other linters changes a linter's findings",
+                               "only_alone": [v for v in alone if v not in together][:6], "only_together": [v for v in together if v not in alone][:6],
+                               "reference": res["iso_lang"], "file_names": list(names if res["iso_lang"] == "*" else _twins(g["stem"], LANG_EXT[res["iso_lang"]])),
+                               "text_tail": data[-120:].decode("utf-8", "replace"),
+                               "group": {k: v for k, v in g.items() if k not in ("cmds", "subprocess_cmds", "only_cmd", "fixed_cmds", "ood", "raw", "raw_rules", "js_ts_ok")}})
         if res["ref_failures"]:
             chk.violation({"reason": "a rule failed internally (swallowed exception) in a reference run under a valid configuration",
                            "failures": res["ref_failures"][:3], "group": {k: v for k, v in g.items() if k not in ("cmds", "subprocess_cmds", "only_cmd", "fixed_cmds", "ood", "raw", "raw_rules", "js_ts_ok")}})
@@ -908,9 +1011,12 @@ def run(tier: str, seed: int, replay: str | None = None) -> int:
             o = res["cmds"][cmd]
             pkg = CMD_OWNER[cmd][0]
             nontrivial = any(res["runtime_pkg"].get(r, "?") != pkg for r in foreign_any)
-            gkey = {k: g[k] for k in ("kind", "stem", "ext", "data_hex", "pert")}
+            gkey = {k: g.get(k) for k in ("kind", "stem", "ext", "data_hex", "pert", "link_ext")}
             chk.count([gkey, cmd], nontrivial)
-            chk.dist("content:" + g["kind"])
+            chk.dist("content:" + g["kind"] + (" (does not parse)" if data.endswith(BROKEN[g["kind"]].encode()) else ""))
+            if g.get("project"):
+                chk.dist("several extension-less files in one invocation:" + g.get("paths_mode", "dir") + ", this one " + ("first" if g["project"][0][0] == g["stem"] else "later"))
+            chk.dist("name is:" + ("a regular file" if g.get("link_ext") is None else "a symbolic link to a file with another extension"))
             chk.dist("spec_language:" + cl)
             chk.dist("ext:" + (g["ext"].lower() if g["ext"].lower() in EXT_MAPPED else "unmapped" if g["ext"] else "none")
                      + ("" if g["ext"] == g["ext"].lower() else "(case variant)"))
